@@ -364,7 +364,16 @@ func runC26(w *World, r *Report) {
 					}
 				}
 
-				return f.Kind == "false"
+				// the enabling flag is false (a parameter, or a load of a package-level flag)
+				// the enabling flag is false: a boolean that is not itself a comparison
+				// (parameter, local computed from the symbol table, atomic flag load)
+				if f.Kind == "false" {
+					_, isCmp := f.V.(*ssa.BinOp)
+
+					return !isCmp
+				}
+
+				return false
 			})
 
 			reachable := reach(fn.Blocks[0], cuts, nil)
